@@ -70,6 +70,26 @@ theorem blank_page_unnamed (ltr : Bool) (index : Nat) (s : PState) (h : (pageInf
   simp only at h ⊢
   simp [h]
 
+/-! ## named pages -/
+
+/- FULL STATEMENT (false on the unchanged tree, F12-1 / KF12-1):
+
+   theorem named_page_change_forces_break (p c : Box) : nameStop p c = true ↔ p.pgEnd ≠ c.pgStart
+
+   "a change of named page" forces a break; the code (`blockLevelPageName` returning "" for the unnamed
+   page, read as "no change" by `inFlowLayout`) only stops when the page that is ENTERED has a name. -/
+
+/-- what the code does: a break is forced exactly when the named page changes AND the new one is named -/
+theorem named_page_change_forces_break_partial (p c : Box) :
+    nameStop p c = true ↔ (p.pgEnd ≠ c.pgStart ∧ c.pgStart ≠ 0) := by
+  simp [nameStop]
+
+/-- negation witness of the full statement: leaving page `n1` for the unnamed page forces no break
+    (replayed against the real code by the judge `forced-break-starts-page`, key `named-page-left`) -/
+theorem named_page_left_no_break :
+    nameStop (.para { pg := 1 } [1]) (.para { pg := 0 } [2]) = false ∧
+    (Box.para { pg := 1 } [1]).pgEnd ≠ (Box.para { pg := 0 } [2]).pgStart := by decide
+
 /-! ## @page selectors and the cascade -/
 
 /-- `:nth(an+b)` with Go's truncating division matches page index i (1-based i+1) iff
